@@ -1436,6 +1436,65 @@ def check_fresh_container_assignment(rep):
                         rep.fail('derived-container-refused', 'a %s container of the derived type %s was refused via %s' % (state, wname, api), case)
 
 
+def check_occupied_slot_reassignment(rep):
+    """the subtype check on assignment does not depend on what the position already holds: a SEQUENCE OF / SET OF position that
+    was occupied before - by a valid assignment, or by a mere read that left the element type's placeholder - refuses a value of
+    the unconstrained parent type outside the element constraints exactly as a fresh position does, through every assignment
+    operation; values of the element type and of derived types are accepted"""
+    from pyasn1.type import char
+    fams = [('INTEGER (0..100)', univ.Integer().subtype(subtypeSpec=C.ValueRangeConstraint(0, 100)), univ.Integer, 5, [-1, 101, 7, 100], lambda x: 0 <= x <= 100),
+            ('OCTET STRING SIZE (1..4)', univ.OctetString().subtype(subtypeSpec=C.ValueSizeConstraint(1, 4)), univ.OctetString, b'ab',
+             [b'', b'abcde', b'xy', b'abcd'], lambda x: 1 <= len(x) <= 4),
+            ('IA5String FROM (a|b|c)', char.IA5String().subtype(subtypeSpec=C.PermittedAlphabetConstraint('a', 'b', 'c')), char.IA5String, 'ab',
+             ['abd', 'z', 'cab', ''], lambda x: all(ch in 'abc' for ch in str(x)))]
+    occupy = {'fresh': lambda s, good: None,
+              'assigned': lambda s, good: s.__setitem__(0, good),
+              'read': lambda s, good: s.getComponentByPosition(0),
+              'assigned-then-read': lambda s, good: (s.__setitem__(0, good), s[0])}
+    assign = {'setitem': lambda s, v: s.__setitem__(0, v),
+              'bypos': lambda s, v: s.setComponentByPosition(0, v),
+              'slice': lambda s, v: s.__setitem__(slice(0, 1), [v])}
+    for cname, cls in (('SequenceOf', univ.SequenceOf), ('SetOf', univ.SetOf)):
+        for fname, elem, parent, good, probes, admits in fams:
+            for oname, occ in sorted(occupy.items()):
+                for aname, asg in sorted(assign.items()):
+                    for probe in probes:
+                        for src_name, mk in (('parent', lambda p: parent(p)), ('element-type', None), ('derived-tagged', None)):
+                            rep.evaluations += 1
+                            rep.count('occupied-slot-reassignments')
+                            case = {'kind': 'occupied-slot', 'container': cname, 'element': fname, 'occupied-by': oname, 'api': aname,
+                                    'value': repr(probe), 'source': src_name}
+                            s = cls(componentType=elem)
+                            try:
+                                occ(s, good)
+                            except error.PyAsn1Error:
+                                continue
+                            try:
+                                if src_name == 'parent':
+                                    v = parent(probe)
+                                elif src_name == 'element-type':
+                                    v = elem.clone(probe)
+                                else:
+                                    v = elem.subtype(subtypeSpec=C.ConstraintsIntersection()).clone(probe)
+                            except error.PyAsn1Error:
+                                continue            # the value cannot even be built in that type: nothing to assign
+                            try:
+                                asg(s, v)
+                                stored = True
+                            except (error.PyAsn1Error, IndexError, KeyError):
+                                stored = False
+                            except Exception as ex:  # noqa
+                                rep.fail('occupied-slot-leak-' + type(ex).__name__, '%s raised %r' % (aname, ex), case)
+                                continue
+                            if stored and len(s) > 0 and s[0].isValue and not admits(s[0] if fname.startswith('IA5') else (
+                                    int(s[0]) if fname.startswith('INTEGER') else bytes(s[0]))):
+                                rep.fail('assignment-bypasses-constraint:occupied-slot:%s' % oname,
+                                         '%s OF %s: position 0 (%s) took %r of the %s through %s' % (cname, fname, oname, probe, src_name, aname), case)
+                            if not stored and src_name != 'parent' and oname != 'read' and aname != 'slice':
+                                rep.fail('element-type-value-refused', '%s OF %s: position 0 (%s) refused %r of the %s through %s' % (
+                                    cname, fname, oname, probe, src_name, aname), case)
+
+
 def check_retyped_containers(rep):
     """a populated SEQUENCE OF / SET OF copied into a container with another component type in one step
     (clone / subtype with componentType=... and cloneValueFlag=True): the copy is refused, or every component it holds is
@@ -1644,6 +1703,8 @@ def run(rep, tier, seed):
     known_finding_probes(rep)
     check_huge(rep)
     check_fresh_container_assignment(rep)
+    rep.case('occupied slot reassignment', nontrivial=True)
+    check_occupied_slot_reassignment(rep)
     check_class_blind_assignment(rep)
     rep.case('retyped containers', nontrivial=True)
     check_retyped_containers(rep)
